@@ -127,17 +127,29 @@ class ExprMixin:
             yield st, self.module_attr(st, o.ty[7:], attr, cx)
             return
         attr = mangle(cx.cls, attr)
-        if attr == "__name__" and o.e is not None and ((o.ty or "").startswith("cls") or (
+        if attr in ("__name__", "__qualname__") and o.e is not None and ((o.ty or "").startswith("cls") or (
                 not o.ty and self.o.spec_depth == 0 and self.o.entails(st, V.is_cls(o.e), cheap=True))):
-            yield st, self.o.str_(w.fun("class_name", w.Cls, "str")(V.c(o.e)))
+            yield st, self.o.str_(w.fun("class_name" if attr == "__name__" else "class_qualname", w.Cls, "str")(V.c(o.e)))
             return
         if o.ty and o.ty.startswith("cls:"):
             yield from self.class_attr(st, o.ty[4:], attr, cx)
+            return
+        if attr == "digest_size" and (o.ty or "") == "ref:Hasher":
+            from .builtins_spec import hash_funs
+            H, dsz = hash_funs(w)
+            alg = st.rd("$alg", self.o.r(o))
+            st.assume(dsz(alg) > 0)
+            yield st, self.o.int_(dsz(alg))
             return
         for nt, fields in NAMEDTUPLES.items():
             if attr in fields and (o.ty or "").startswith("ref:") and self.src.is_subclass(o.ty[4:], nt):
                 yield st, SV(self.o.seq_get(st, self.o.r(o), fields.index(attr)))
                 return
+        if self.o.spec_depth > 0 and o.e is not None and not (o.ty or "").startswith("ref:"):
+            for nt, fields in NAMEDTUPLES.items():
+                if attr in fields:      # contract text: a named-tuple component of an untyped value (read under a guard)
+                    yield st, SV(self.o.seq_get(st, self.o.r(o), fields.index(attr)))
+                    return
         cls = self.static_class(st, o, attr)
         if cls is None and attr in ("method", "ciphertext") and self.o.entails(st, self.o.is_type(o.e, "ref:SecureValue")):
             yield st, SV(self.o.seq_get(st, self.o.r(o), NAMEDTUPLES["SecureValue"].index(attr)))
@@ -452,6 +464,10 @@ class ExprMixin:
             else:
                 raise Unsupported("int operator")
             return
+        if cx.spec is not None and isinstance(op, ast.Add) and None in (lt, rt):
+            other = lt if rt is None else rt
+            if other in ("bytes", "str"):      # contract text: the untyped operand is used under a guard that fixes its type
+                lt = rt = other
         if isinstance(op, ast.Add) and lt == "str" and rt == "str":
             yield st, o.str_(z3.Concat(o.s(l), o.s(r)))
             return
@@ -643,6 +659,8 @@ class ExprMixin:
                 continue
             c = vs[0]
             t = o.tyof(st1, c)
+            if t in (None, "none") and cx.spec is not None:
+                t = "bytes"      # contract text: slices are only written over byte strings
             it = iter(vs[1:])
             lo = o.i(next(it)) if sl.lower is not None else z3.IntVal(0)
             if t in ("bytes", "str"):
